@@ -680,3 +680,55 @@ func TestC03DateKinds(t *testing.T) {
 }
 
 func init() { reg("C03.datekind", checkC03DateKind) }
+
+// ---- pointers to scalars under filters and behind further pointers ---------------------------------------------
+
+type C03PtrCase struct {
+	Which int `json:"which"`
+}
+
+var c03PtrSrcs = []string{"{{ pp }}", "{{ ppp }}", "{{ ps|spaceless }}", "{{ ps|upper }}|{{ ps|trim }}|{{ ps|length }}", "{{ pps }}|{{ pps|upper }}", "{{ pp + 1 }}|{{ pp ~ 'x' }}", "{{ ps|striptags }}|{{ ps|nl2br }}|{{ ps|url_encode }}", "{{ [ps, pp]|join(',') }}",
+	"{{ ps|default('d') }}|{{ ps|escape }}|{{ ps|raw }}", "{{ ps|replace('a', 'b') }}|{{ ps|split(' ')|join('+') }}|{{ ps|capitalize }}|{{ ps|title }}", "{{ '%s-%d'|format(ps, pp) }}"}
+
+func c03PtrCtx() map[string]interface{} {
+	i, s := 5, "<b>a  c</b>"
+	pi, ps := &i, &s
+	ppi, pps := &pi, &ps
+	_ = make([]byte, 64) // move the allocator on
+	return map[string]interface{}{"pp": ppi, "ppp": &ppi, "ps": ps, "pps": pps}
+}
+
+// checkC03Ptr: a pointer (to a pointer) to a number or a string prints what it points to, under
+// every filter: the same bytes for two separately allocated copies of the same data.
+func checkC03Ptr(c C03PtrCase) error {
+	src := c03PtrSrcs[c.Which%len(c03PtrSrcs)]
+	a := render1(src, c03PtrCtx())
+	keep := make([][]byte, 8)
+	for i := range keep {
+		keep[i] = make([]byte, 48)
+	}
+	b := render1(src, c03PtrCtx())
+	_ = keep
+	if a.Panic != "" || a.Failed() != b.Failed() || a.Out != b.Out {
+		return fmt.Errorf("%s on two separately allocated copies of the same pointers (to 5 and to \"<b>a  c</b>\") renders %v and %v", q(src), a, b)
+	}
+	if strings.Contains(a.Out, "0xc0") {
+		return fmt.Errorf("%s prints a memory address: %v", q(src), a)
+	}
+	return nil
+}
+
+func TestC03Pointers(t *testing.T) {
+	r := NewRec(t, "C03", "exhaustive: 11 templates that print pointers, pointers to pointers and pointers to pointers to pointers to an int and a string, bare and under 20 filters, in arithmetic, concatenation and lists; oracle: two separately allocated copies of the same data render the same bytes, and no address appears; all cases non-trivial")
+	defer r.Flush()
+	r.SetExhaustive()
+	for i := range c03PtrSrcs {
+		c := C03PtrCase{Which: i}
+		r.Case(fmt.Sprint(i), true, c03PtrSrcs[i])
+		if err := checkC03Ptr(c); err != nil {
+			r.FailEnum(t, "C03.ptr", c, err)
+		}
+	}
+}
+
+func init() { reg("C03.ptr", checkC03Ptr) }
